@@ -17,6 +17,7 @@ def run(ctx, rep):
     rep.rule('E10', e10_cli.__doc__.strip().split('\n')[0])
     e10_cli.run(facts, rep, 'i64', harness.REPO)
     e10_cli.check_name_grammar(facts, rep, harness.REPO)
+    e10_cli.check_pair_order(facts, rep)
     rep.rule('E28', e28_rmodstr.__doc__.strip().split('\n')[0])
     e28_rmodstr.run(facts, rep)
     e28_rmodstr.check_cell_placement(facts, rep)
